@@ -2,7 +2,7 @@
 // (set per harness group by /verif/bin/check).  Every capacity overflow is a `MODEL:` assertion.
 use std::{env, fs, path::Path};
 fn main() {
-    let caps: [(&str, usize); 9] = [
+    let caps: [(&str, usize); 10] = [
         ("BCAP", 64),  // big byte buffers: Bytes, Val payloads, hash inputs
         ("SCAP", 4),   // String capacity
         ("VCAP", 2),   // Vec<T> capacity
@@ -12,6 +12,7 @@ fn main() {
         ("HCAP", 4),   // hash memo entries
         ("ECAP", 3),   // event log entries
         ("OCAP", 3),   // signature-oracle log entries
+        ("LONGB", 0),  // 1: abstract "long" byte strings (length up to u32::MAX, opaque content) are enabled
     ];
     let mut s = String::new();
     for (n, d) in caps {
